@@ -15,6 +15,7 @@ func init() {
 				{Harness: "c06.reader", Mode: "plain", Shards: 16},
 				{Harness: "c20.paths", Mode: "plain", Shards: 16},
 				{Harness: "c06.lengths", Mode: "plain", Shards: 16},
+				{Harness: "c06.iface", Mode: "plain", Shards: 4},
 			}
 		},
 	})
